@@ -647,14 +647,36 @@ algorithm.)
 def mpf_harmonic(x, prec, rnd):
     if x in (fzero, fnan, finf):
         return x
-    a = mpf_psi0(mpf_add(fone, x, prec+5), prec)
-    return mpf_add(a, mpf_euler(prec+5, rnd), prec, rnd)
+    sign, man, exp, bc = x
+    mag = exp + bc
+    wp = prec + 5
+    if mag < -wp:
+        # H(x) = zeta(2)*x - zeta(3)*x^2 + ...
+        z2 = mpf_div(mpf_mul(mpf_pi(wp+5), mpf_pi(wp+5), wp+5), from_int(6), wp+5)
+        return mpf_mul(x, z2, prec, rnd)
+    if mag < 0:
+        # psi(1+x) + euler cancels -mag bits
+        wp += -mag
+    # 1+x is formed exactly
+    a = mpf_psi0(mpf_add(fone, x), wp)
+    return mpf_add(a, mpf_euler(wp+5, rnd), prec, rnd)
 
 def mpc_harmonic(z, prec, rnd):
     if z[1] == fzero:
         return (mpf_harmonic(z[0], prec, rnd), fzero)
-    a = mpc_psi0(mpc_add_mpf(z, fone, prec+5), prec)
-    return mpc_add_mpf(a, mpf_euler(prec+5, rnd), prec, rnd)
+    wp = prec + 5
+    re, im = z
+    mag = im[2] + im[3]
+    if re != fzero:
+        mag = max(mag, re[2] + re[3])
+    if mag < -wp:
+        z2 = mpf_div(mpf_mul(mpf_pi(wp+5), mpf_pi(wp+5), wp+5), from_int(6), wp+5)
+        return mpc_mul_mpf(z, z2, prec, rnd)
+    if mag < 0:
+        wp += -mag
+    # 1+z is formed exactly
+    a = mpc_psi0((mpf_add(re, fone), im), wp)
+    return mpc_add_mpf(a, mpf_euler(wp+5, rnd), prec, rnd)
 
 def mpf_psi0(x, prec, rnd=round_fast):
     """
